@@ -266,6 +266,7 @@ func checkC03(c *Ctx, r *Report) {
 	namesEscaped(c, r, "C03.R3.names-escaped", "the text form of the name is not the escaped form the parser and IsDomainName work on: text and wire forms of that field do not correspond")
 	c03NameBuffers(c, r, "C03.R1.name-buffers")
 	borrow(c, r, c04R3, "C04.R3.pointer-source", "C03.R1.pointer-written", 1, "the compression pointer is written exactly when a pointer target was found (pointer != -1, offset 0 included)", nil, "a name whose suffix was first written at offset 0 of the buffer loses that suffix: it packs as the labels before it followed by the root")
+	fqdnTrailingRun(c, r, "C03.R4.fqdn-trailing-run")
 }
 
 func c03R2(c *Ctx, r *Report) {
